@@ -37,7 +37,7 @@ def run_harness(hbin, seed, tier, only=None, cases=None):
     if p.returncode != 0:
         raise RuntimeError("psbt engine failed (exit %s): %s" % (p.returncode, p.stderr[-2000:]))
     out = {"inp": {}, "case": {}, "desc": {}, "hist": [], "probe_viol": [], "summary": None, "mall": None,
-           "gen_error": [], "plans": 0}
+           "gen_error": [], "plans": 0, "pkh": [], "keyhash": [], "pkhtap": [], "xl": []}
     for line in p.stdout.splitlines():
         if not line:
             continue
@@ -53,6 +53,14 @@ def run_harness(hbin, seed, tier, only=None, cases=None):
             out["hist"].append(d)
         elif t == "probe-viol":
             out["probe_viol"].append(d)
+        elif t == "pkh":
+            out["pkh"].append((d["inp"], d["h"], d["r"]))
+        elif t == "pkhtap":
+            out["pkhtap"].append((d["inp"], d["h"], d["r"]))
+        elif t == "xl":
+            out["xl"].append((d["k"], d["x"]))
+        elif t == "keyhash":
+            out["keyhash"].append((d["k"], d["h"]))
         elif t == "probe-stats":
             out["plans"] += d["plans"]
         elif t == "summary":
@@ -151,6 +159,12 @@ class Gen:
             return "AddUnknown %d%%nat %d %d" % (o["i"], I(o["k"]), I(o["v"]))
         if k == "upd":
             return "Update %d%%nat %d" % (o["i"], o["d"])
+        if k == "scripts":
+            return "AddScripts %d%%nat %d" % (o["i"], o["d"])
+        if k == "deriv":
+            return "AddDeriv %d%%nat %d %d" % (o["i"], I(o["k"]), I(o["v"]))
+        if k == "taporigin":
+            return "AddTapOrigin %d%%nat %d %d" % (o["i"], I(o["k"]), I(o["v"]))
         if k == "fin":
             return "Finalize %s" % cbool(o["m"])
         if k == "finold":
@@ -310,13 +324,30 @@ def build_gen(data, hists):
     out = ["(* generated by tools/props/c14.py from the psbt engine's observations; do not edit *)",
            "From Coq Require Import List Bool NArith.", "Import ListNotations.",
            "From Verif Require Import PsbtModel PsbtCasesDefs.", "Local Open Scope N_scope.", ""]
-    for iid in sorted(used_inputs):
+    used_inputs_extra = set(iid for (iid, _, _) in data["pkh"]) | set(iid for (iid, _, _) in data["pkhtap"])
+    for iid in sorted(used_inputs | used_inputs_extra):
         out.append(g.inp_def(iid))
     out.append("")
     out.append("Definition descs : list (N * dinfo) := [%s]." % ";\n  ".join(dl))
     out.append("Definition sigflags : list (N * N) := %s." % cmap(sigflags.items()))
     out.append("Definition mall_false : bool := %s." % cbool(mall_false))
     out.append("Definition mall_true : bool := %s." % cbool(mall_true))
+    # Placeholder::PubkeyHash completion, tabulated on the compiled code
+    pkh_rows = []
+    for (iid, h, r) in data["pkh"]:
+        used_inputs_extra.add(iid)
+        pkh_rows.append("(i%d,%d,%s)" % (iid, g.I(h), copt(None if r is None else g.I(r))))
+    out.append("Definition pkh_tab : list (N * N) := %s." % cmap(set((g.I(k), g.I(h)) for k, h in data["keyhash"])))
+    out.append("Definition xl_tab : list (N * N) := %s." % cmap(set((g.I(k), g.I(x)) for k, x in data["xl"])))
+    tap_rows = ["(i%d,%d,%s)" % (iid, g.I(h), copt(None if r is None else g.I(r))) for (iid, h, r) in data["pkhtap"]]
+    for n in range(0, max(len(tap_rows), 1), 1500):
+        out.append("Definition pkh_tap_obs_%d : list (pinput * N * option N) := [%s]." % (n // 1500, ";".join(tap_rows[n:n + 1500])))
+    out.append("Definition pkh_tap_obs : list (pinput * N * option N) := %s." % " ++ ".join(
+        "pkh_tap_obs_%d" % (n // 1500) for n in range(0, max(len(tap_rows), 1), 1500)))
+    for n in range(0, max(len(pkh_rows), 1), 1500):
+        out.append("Definition pkh_obs_%d : list (pinput * N * option N) := [%s]." % (n // 1500, ";".join(pkh_rows[n:n + 1500])))
+    out.append("Definition pkh_obs : list (pinput * N * option N) := %s." % " ++ ".join(
+        "pkh_obs_%d" % (n // 1500) for n in range(0, max(len(pkh_rows), 1), 1500)))
     out.append("")
     out += case_lines
     ids = [h["id"] for h in hists]
@@ -327,14 +358,14 @@ def build_gen(data, hists):
     meta = {"tries": n_tries, "distinct_try_keys": len(global_try), "conflicts": conflicts, "unstable": unstable,
             "inputs_defined": len(used_inputs), "mall_false": mall_false, "mall_true": mall_true,
             "keep_unknown": bool(mp.get("keeps_unknown", False)),
-            "interned_values": len(g.I.ids)}
+            "interned_values": len(g.I.ids), "pkh_rows": len(data["pkh"]) + len(data["pkhtap"])}
     return "\n".join(out) + "\n", meta
 
 
 # ------------------------------------------------------------------ reporting
 def describe_op(o):
     k = o["o"]
-    if "what" in o and k in ("sig", "tapkeysig", "tapsig", "pre", "upd"):
+    if "what" in o and k in ("sig", "tapkeysig", "tapsig", "pre", "upd", "scripts", "deriv", "taporigin"):
         return o["what"] if k != "pre" else "%s (%s) on input %d" % (o["what"], o["hk"], o["i"])
     if k == "unk":
         return "add-unknown on input %d" % o["i"]
@@ -461,7 +492,13 @@ def run(rep, tier, seed, replay):
             c3 = vlib.coqc("Tables/PsbtCasesDiag.v", timeout=1500)
             diag = parse_diag(c3.stdout) if c3.returncode == 0 else None
             by_id = dict((h["id"], h) for h in hists)
-            if not diag:
+            if diag == []:   # every history agrees: the other theorem of the file is the one that failed
+                rep.violation("tie:raw-pkh-resolution",
+                              "the compiled Placeholder::PubkeyHash completion (key behind a raw key hash: bip32_derivation, else the "
+                              "partial signature carrying it) differs from the model's resolve_pkh on some tabulated input state",
+                              {"property": PID, "broken_tie": "raw_pkh_resolution_matches_model (Tables/PsbtCasesCheck.v)",
+                               "log": (c2.stdout + c2.stderr)[-1500:]}, False)
+            elif not diag:
                 rep.violation("tie-diag", "psbt_cases_match_model fails and the diagnosis did not run: " + (c3.stderr or c2.stderr)[-800:],
                               {"property": PID, "broken_tie": "Tables/PsbtCasesCheck.v: psbt_cases_match_model"}, False)
             else:
@@ -530,6 +567,8 @@ def run(rep, tier, seed, replay):
         "finalize_inp_mall_mut_allows_malleable": meta["mall_true"],
         "finalized_input_keeps_unknown_fields": meta["keep_unknown"],
         "mall_probe": data["mall"],
+        "raw_pkh_resolution_rows_compared_in_coq": meta["pkh_rows"],
+        "key_origin_histories": dict((k, v) for k, v in collections.Counter(h["kind"] for h in data["hist"]).items() if "key-origins" in k),
         "observations_not_violations": dict(data.get("observations", {})),
         "observation_examples": data.get("observation_example", {}),
         "both_utxo_field_histories": dict((k, v) for k, v in collections.Counter(h["kind"] for h in data["hist"]).items() if k.startswith("utxo-")),
